@@ -65,6 +65,18 @@ Theorem C07_opts_flow :
 Proof. exact (conj opts_flow_checked header_accessors_pinned). Qed.
 Print Assumptions C07_opts_flow.
 
+(* Current source: the four checks of FileHeader.ValidateWith that [valid] relies on — len(FileIDModifier) != 1 and the
+   three constants — are top-level rejects before the first option-dependent statement (applied under every option
+   set), and the regenerated rules of those shapes pin the constants and make FileIDModifier non-empty. *)
+Theorem C07_header_core_checks :
+  header_checks_ok json_opts_flow
+    ["len(FileIDModifier) != 1"; "recordSize != ""094"""; "blockingFactor != ""10"""; "formatCode != ""1"""] = true /\
+  len_pinned hdr_core_rules "FileIDModifier" = true /\
+  pins hdr_core_rules "recordSize" (bstr "094") = true /\ pins hdr_core_rules "blockingFactor" (bstr "10") = true /\
+  pins hdr_core_rules "formatCode" (bstr "1") = true.
+Proof. exact header_core_checks. Qed.
+Print Assumptions C07_header_core_checks.
+
 (* without the two bypass flags the option-aware header line is the line the layout interpreter renders *)
 Theorem C07_header_line_default : forall o L r,
   flag o "BypassDestinationValidation" = false -> flag o "BypassOriginValidation" = false ->
@@ -149,8 +161,8 @@ Print Assumptions C07_keep_from_valid.
 (* Current source, any validators.  For every typed File value that is
      in the domain  (options stored through File.SetValidation: the header's copy is the file's; priorityCode is the one
                      literal the package assigns; the five timestamp fields in their NACHA forms),
-     valid          (as far as the round trip needs: file header accepted by the regenerated rules of
-                     FileHeader.Validate, batch headers present, addenda type codes, ADV categories, Create's
+     valid          (as far as the round trip needs: file header accepted by the option-independent regenerated rules
+                     of FileHeader.Validate, batch headers present, addenda type codes, ADV categories, Create's
                      preconditions),
      tabulated      (Batch.build / IATBatch.build under the file's options and File.Create leave it alone; ADV files:
                      build yields the stored ADV controls, createFileADV's numbers and sums),
